@@ -4,7 +4,7 @@
    Definitions only; proofs in Proof/JoinHw.v.
 
    State of the code modelled: /repo after the join repairs b0661ca, 0005072, 2cb4862, 07d36f7,
-   5934993, 755317f, 9cb158a, 50ce016 (former finding classes 1, 2, 4, 8, 10 and the residual-conjunct
+   5934993, 755317f, ea8e0e0, dff11cf (former finding classes 1, 2, 4, 8, 10 and the residual-conjunct
    part of class 3 are gone; see known_findings.d/C17.json).
 
    What the code does:
